@@ -8,7 +8,9 @@ import (
 type MapOver struct {
 	Loop  *Loop
 	Elems []*Term // element terms appended per iteration (in order)
+	Vals  []ssa.Value
 	Phi   *ssa.Phi
+	Calls []*ssa.Call // the append calls
 }
 
 // asMapOver recognises v as the loop-carried accumulator (or its value after the loop) of a full
@@ -47,6 +49,7 @@ func (fi *FnInfo) asMapOver(p *Prog, v ssa.Value) *MapOver {
 		// chain of appends back to phi, all in blocks executed on every iteration
 		cur := e
 		var rev [][]*Term
+		var revV [][]ssa.Value
 		for cur != ssa.Value(phi) {
 			call, ok := cur.(*ssa.Call)
 			if !ok {
@@ -65,10 +68,13 @@ func (fi *FnInfo) asMapOver(p *Prog, v ssa.Value) *MapOver {
 				ts = append(ts, fi.T(x))
 			}
 			rev = append(rev, ts)
+			revV = append(revV, vals)
+			mo.Calls = append(mo.Calls, call)
 			cur = call.Common().Args[0]
 		}
 		for j := len(rev) - 1; j >= 0; j-- {
 			mo.Elems = append(mo.Elems, rev[j]...)
+			mo.Vals = append(mo.Vals, revV[j]...)
 		}
 	}
 	if len(mo.Elems) == 0 {
